@@ -355,6 +355,18 @@ def r_wrap(P, chk):
         then = n["c"][1]
         vals = [enum_name(a["c"][1]) for a in walk(then) if a["k"] == "BinaryOperator" and a["op"] == "=" and key(a["c"][0]) == "format"]
         table[lit["s"]] = vals
+    if not table:
+        # table-driven form: a static array of { "name", FORMAT_X } pairs in main.c
+        for g in main.unit.funcs.values():
+            for x in g.walk():
+                if x["k"] != "VarDecl" or not x.get("c") or x["c"][0] is None or x["c"][0]["k"] != "InitListExpr":
+                    continue
+                for row in x["c"][0].get("c") or ():
+                    if row is None or row["k"] != "InitListExpr" or len(row.get("c") or ()) != 2:
+                        continue
+                    a, b = strip(row["c"][0]), row["c"][1]
+                    if a is not None and a["k"] == "StringLiteral" and (enum_name(b) or "").startswith("FORMAT_"):
+                        table.setdefault(a["s"], []).append(enum_name(b))
     chk.floor(rid, len(table), 12, "-t format strings")
     seen = {}
     for s, vals in sorted(table.items()):
